@@ -359,7 +359,8 @@ def io_channels(mod):
     if type(mod).__name__ == "ConvRNNStack":
         return mod.convs.conv_layer.in_channels, mod.recurrent.ih.out_channels
     inner = getattr(mod, "convgru", mod)
-    if hasattr(inner, "conv_blocks"):            # Conv2dGRU: the gates are registered before the conv blocks
+    is_gru = hasattr(inner, "conv_blocks") and hasattr(inner, "reset_gates")
+    if is_gru:                                   # Conv2dGRU: the gates are registered before the conv blocks
         convs = [c for c in inner.conv_blocks[0].modules() if isinstance(c, nn.Conv2d)]
     else:
         convs = [c for c in mod.modules() if isinstance(c, (nn.Conv2d, nn.Conv3d))]
@@ -372,7 +373,7 @@ def io_channels(mod):
     mod.eval()
     try:
         with torch.no_grad():
-            out = mod(x, None) if hasattr(inner, "conv_blocks") else mod(x)
+            out = mod(x, None) if is_gru else mod(x)
     except Exception as e:  # noqa: BLE001
         raise Untranslatable(f"cannot probe {type(mod).__name__}: {type(e).__name__}: {e}")
     finally:
